@@ -1,4 +1,4 @@
-import GeffProofs.WriteRead
+import GeffProofs.StoreTree
 /-! # C01 — write-then-read returns the same graph
 
 Property theorems only.  Model: `Geff.WR.writeArrays` / `readToMemory` (`GeffModel/WriteRead.lean`) on
@@ -85,16 +85,9 @@ theorem C01_roundtrip (c : VlenCodec) (hc : c.Lawful) (s0 : St) (g : InMem) (md 
     (expectedNodeProps md n nps) eps md hW hnd hw hwf.edgeNames (fun kp hm => (hwf.edgeOK kp hm).1)
   exact ⟨s', hwrite, hW, r, hread, ⟨h1, h2, sameProps_of_lookup _ _ h4, sameProps_of_lookup _ _ h5⟩⟩
 
-/-- **C01 (round trip) with the default `structure_validation=True` on both sides — PARTIAL.**
-Full statement: as `C01_roundtrip`, with `writeArrays`/`readToMemory` calling the model of
-`validate_structure` (C04: `Geff.Structure.validateStructure`).  Proved here: the same with the
-validator as a parameter and the named hypothesis `hval` — it accepts the store the writer produces
-for this well-formed graph.  Missing: discharging `hval` from C04's `C04_sound_complete`
-(`validate = ok ↔ Conformant`); C04's model lives on its own nested-tree store type, and the
-abstraction from the flat `St` used here to it, with the proof that the written store is `Conformant`
-there, has not been done.  The harness closes the gap empirically: the real `validate_structure` runs
-inside `write_arrays`/`read_to_memory` on every generated case and must accept. -/
-theorem C01_roundtrip_validated_partial (c : VlenCodec) (hc : c.Lawful) (validate : St → Outcome Unit)
+/-- the same with any function in the place of the structural validator, provided it accepts the store
+the writer produces (`hval`) — the lemma the validated theorem below instantiates -/
+theorem C01_roundtrip_with_validator (c : VlenCodec) (hc : c.Lawful) (validate : St → Outcome Unit)
     (s0 : St) (g : InMem) (md : CallerMeta) (n e : Nat) (nps eps : Props)
     (hfresh : Fresh s0) (hwf : WFGeff g n e nps eps) (hax : AxesOK md n nps)
     (hval : ∀ s', writeCore c s0 g md = .ok s' → validate s' = .ok ()) :
@@ -107,14 +100,27 @@ theorem C01_roundtrip_validated_partial (c : VlenCodec) (hc : c.Lawful) (validat
   · unfold readToMemory
     simp only [hval s' hwrite, hread, bind, Except.bind]
 
-/-- the same for the codec the check runs (the model of `geff.core_io._serialization`, C11):
-its round-trip law is discharged by `GeffProofs.Vlen` (`vlenCodec_lawful`) -/
-theorem C01_roundtrip_geff_validated_partial (validate : St → Outcome Unit) (s0 : St) (g : InMem) (md : CallerMeta)
-    (n e : Nat) (nps eps : Props) (hfresh : Fresh s0) (hwf : WFGeff g n e nps eps) (hax : AxesOK md n nps)
-    (hval : ∀ s', writeCore vlenCodec s0 g md = .ok s' → validate s' = .ok ()) :
-    ∃ s', writeArrays vlenCodec validate s0 g md = .ok s' ∧
-      ∃ r, readToMemory vlenCodec validate s' = .ok r ∧ Spec g.nodeIds g.edgeIds (expectedNodeProps md n nps) eps r :=
-  C01_roundtrip_validated_partial vlenCodec vlenCodec_lawful validate s0 g md n e nps eps hfresh hwf hax hval
+/-- **C01 (round trip) in the default configuration: `structure_validation=True` on both sides.**
+`Geff.Bridge.validate` is C04's model of `validate_structure` (`Geff.Structure.validateStructure`, proved
+sound and complete in `GeffProps.C04.C04_sound_complete`) run on the tree view of the flat store
+(`GeffModel/StoreTree.lean`).  For every fresh target, every well-formed graph, every caller metadata
+that names only properties that get written and whose axes are as the specification wants them
+(`AxesStrict`: 1-D node properties without missing mask; absent only on an empty graph):
+`write_arrays` succeeds — its final validation accepts — and `read_to_memory` validates, succeeds and
+returns the same graph. -/
+theorem C01_roundtrip_validated (s0 : St) (g : InMem) (md : CallerMeta) (n e : Nat) (nps eps : Props)
+    (hfresh : Fresh s0) (hwf : WFGeff g n e nps eps) (hax : Geff.Bridge.AxesStrict md n nps)
+    (hmdN : ∀ kv ∈ md.nodeProps, kv.1 ∈ (expectedNodeProps md n nps).map (·.1))
+    (hmdE : ∀ kv ∈ md.edgeProps, kv.1 ∈ eps.map (·.1)) :
+    ∃ s', writeArrays vlenCodec Geff.Bridge.validate s0 g md = .ok s' ∧
+      ∃ r, readToMemory vlenCodec Geff.Bridge.validate s' = .ok r ∧
+        Spec g.nodeIds g.edgeIds (expectedNodeProps md n nps) eps r := by
+  apply C01_roundtrip_with_validator vlenCodec vlenCodec_lawful Geff.Bridge.validate s0 g md n e nps eps hfresh hwf hax.ok
+  intro s' hs'
+  obtain ⟨s'', hwrite, hW, _⟩ := C01_roundtrip vlenCodec vlenCodec_lawful s0 g md n e nps eps hfresh hwf hax.ok
+  rw [hs'] at hwrite
+  cases hwrite
+  exact Geff.Bridge.validate_written s0 s' g md n e nps eps hwf hax hmdN hmdE hW
 
 /-- empty graphs are covered: with no axes in the metadata exactly the given properties come back -/
 theorem C01_expected_no_axes (md : CallerMeta) (n : Nat) (nps : Props) (h : md.axes = none) :
@@ -371,12 +377,27 @@ example : WFGeff exG 2 1 [("values", exDense), ("poly", exVlen), ("t", exT)] [] 
     · exact ⟨⟨by decide, (fun m hm => by cases hm), (by show Dtype.f64 ∈ denseDtypes; decide)⟩,
         ⟨(fun m hm => by cases hm), ⟨rfl, by decide⟩⟩⟩
 
-example : AxesOK exMd 2 [("values", exDense), ("poly", exVlen), ("t", exT)] := by
+example : Geff.Bridge.AxesStrict exMd 2 [("values", exDense), ("poly", exVlen), ("t", exT)] := by
   intro axes h ax hax
   cases h
   simp only [List.mem_cons, List.not_mem_nil, or_false] at hax
   subst hax
   exact ⟨by decide, Or.inr ⟨_, rfl, rfl, by decide, by decide⟩⟩
+
+/-- the caller metadata of the example names only written properties (hypotheses `hmdN`, `hmdE`) -/
+example : ∀ kv ∈ exMd.nodeProps, kv.1 ∈ (expectedNodeProps exMd 2 [("values", exDense), ("poly", exVlen), ("t", exT)]).map (·.1) := by
+  decide
+
+/-- … and the validated model round trip evaluates accordingly -/
+example : isOkWith (do
+      let s ← writeArrays vlenCodec Geff.Bridge.validate exS0 exG exMd
+      let r ← readToMemory vlenCodec Geff.Bridge.validate s
+      pure (r.nodeIds, lookupKey "poly" r.nodeProps))
+    (fun x => x = (exNodeIds, some exVlen)) = true := by decide
+
+/-- sensitivity of the validator in the loop: metadata naming a property that is not written makes the write fail -/
+example : writeArrays vlenCodec Geff.Bridge.validate [] ⟨exNodeIds, exEdgeIds, some [], some []⟩
+    ⟨true, none, [("ghost", ⟨"ghost", "int8", some false⟩)], []⟩ = .error .valueError := by rfl
 
 /-- the empty graph with a var-length property (D15) is in the domain -/
 example : Writable "v" ⟨.obj [], none⟩ :=
